@@ -209,6 +209,7 @@ PROGRAM_PALETTE_HEX = [
     "b004", "b024", "b034", "98001 0".replace(" ", ""), "f010 0020".replace(" ", ""), "e81004",
     "cb1020", "c01020", "c31020", "d4 10 20".replace(" ", ""), "dc10563402", "fc10", "ec10", "4402", "4424",
     "ed24", "fd24", "dd", "1200", "1800", "1a00", "32c81020", "25c81020", "3080 10".replace(" ", ""),
+    "cb5150", "cf4f50", "cb5051", "cf504f",   # MVL/MVLD whose source and destination runs overlap by all but one byte, in both directions
     "de", "df", "32ccf8ff", "32ccfe00",      # HALT, OFF (also executed while already in that state), MV (USR),FF, MV (SSR),00
 ]
 
@@ -417,7 +418,8 @@ def run(ctx) -> None:
     # opcodes with a displacement byte ([r3+-n], [(m)+-n]; none of them carries a 20-bit immediate): operand bytes 0x80 and above
     disp_ops = list(range(0x90, 0x97)) + list(range(0xB0, 0xB7)) + list(range(0x98, 0x9F)) + list(range(0xB8, 0xBF)) + \
         [0xE0, 0xE1, 0xE2, 0xE8, 0xE9, 0xEA, 0xF0, 0xF1, 0xF2, 0xF8, 0xF9, 0xFA, 0x56, 0x5E, 0xE3, 0xEB]
-    res += pmap(_shard_shapes, [([(p, op) for op in c], [bytes.fromhex("b484858687")], states[:1], []) for p in (None, 0x32) for c in chunks(disp_ops, nproc() // 2)])
+    wrap_st = [{"bpx": BPX[1], "bg": WRAP_BG, "F": 0, "fill": 0x10A, "wrap": True}]      # pointers a few bytes below the top of the 20-bit space
+    res += pmap(_shard_shapes, [([(p, op) for op in c], [bytes.fromhex("b484858687")], states[:1] + wrap_st, []) for p in (None, 0x32) for c in chunks(disp_ops, nproc() // 2)])
     # register-only instructions at the boundary values of every register width (no memory operand, so no wrap questions)
     bnd = [{"bpx": BPX[0], "bg": bg, "F": f, "fill": 0x10B} for f, bg in
            ((0, {"BA": 0xFFFF, "I": 0xFFFF, "X": 0xFFFFF, "Y": 0xFFFFF, "U": 0xFFFFF, "S": 0xFFFFF}),
